@@ -7,6 +7,8 @@
 pub fn verif_debug_sink<A: ?Sized>(a: &A) { }
 
 // R6: panics keep their position; reaching one is a failed obligation (precondition `false`).
+/// R6: `assert!(c, ...)` -> `verif_assert(c)`: a failing assert! is a panic, so `c` is an obligation at the call site
+pub fn verif_assert(c: bool) requires c { }
 #[verifier::external_body]
 pub fn verif_panic() -> ! requires false { panic!() }
 
